@@ -160,3 +160,15 @@ func Quiesce()                     { time.Sleep(400 * time.Millisecond) }
 func ScheduleRacy(maxPreempt int)  {}
 func ScheduleEraser(maxPreempt int) {}
 func Replace(name string, fn interface{}) {}
+
+// Digest (translator self-test): the text is appended to $VERIF_DIGEST_OUT as one JSON line {"label":..., "text":...}.
+func Digest(label, text string) {
+	if p := os.Getenv("VERIF_DIGEST_OUT"); p != "" {
+		f, err := os.OpenFile(p, os.O_APPEND|os.O_CREATE|os.O_WRONLY, 0644)
+		if err == nil {
+			b, _ := json.Marshal(map[string]string{"label": label, "text": text})
+			f.Write(append(b, '\n'))
+			f.Close()
+		}
+	}
+}
